@@ -166,8 +166,10 @@ class Engine(EngineBase):
             "collect_stats": rng.random() < 0.15,
         }
         if ds == "custom_raise":
-            # what an arbitrary user function would do cannot be predicted by a dry run
-            opts["dry_run"] = False
+            # a user function that merges something and then raises: in a dry run it works on a proxy that
+            # must not write, and the roll-back must not write either (a third of these scenarios)
+            if rng.random() < 0.67:
+                opts["dry_run"] = False
             if rng.random() < 0.5:
                 # empty destination document: the roll-back uses the in-memory backup
                 dpd = {}
@@ -553,7 +555,10 @@ class Run:
             # when several documents / files of a scenario fail, which failure is met first depends on the
             # order in which jobs are processed; a dry run must fail iff the real run fails
             both_fail = got is not None and greal is not None
-            if got != greal and not both_fail:
+            # (a user-defined document function that raises on its own accord is not a conflict a dry run
+            # could foresee - e.g. for a destination job that does not exist yet it is not even called: for
+            # it only "a dry run changes nothing" is decided)
+            if got != greal and not both_fail and o["doc_sync"] != "custom_raise":
                 self.v("C15", "C15:dry-run:outcome-differs-from-real-run",
                        f"dry run ended with {got}: {str(exc)[:160]}; the real run on a copy ended with {greal}",
                        f"C15:dry-run:ends-{got}-real-run-ends-{greal}")
